@@ -433,10 +433,18 @@ def random_pair(tape, clock):
     spec2.outputs = [copy.copy(o) for o in spec.outputs]
     spec2.body = [list(st) for st in spec.body if st[0] != 'raise']
     opts = {'in': {}, 'out': {}}
+    short_used = []
     for i in spec2.inputs:
         o = Opt()
         if tape.draw(3) == 2:
             o.alias = 'ren_' + i.alias + ('.{name}' if i.resolver else '')
+            if tape.draw(3) == 2 and not short_used and not i.resolver:
+                # the new name of the input happens to be a fragment of the key syntax itself
+                free = [a for a in R.SHORT_ALIASES if a not in set(x.alias for x in spec.inputs)]
+                if free:
+                    o.alias = tape.choice(free)
+                short_used.append(o.alias)
+                run.probe('renamed_to_key_syntax_fragment')
         o.fallback_kind = tape.choice(FALLBACKS)
         if o.fallback_kind != 'none':
             o.fallback_names = tape.choice([['<old>'], ['never_there', '<old>'], ['never_there'], ['<old>', 'never_there'], []])
